@@ -59,6 +59,8 @@ META = {
         "session fidelity is differential (implementation vs implementation, in-memory transport, no timer tasks)",
     ],
     "assumptions": [
+        "the code under check is fix_tester.py / order_single.py with fixes/R12a-R12e applied (the model describes the repaired helper)",
+        "distinct orders have distinct root ClOrdIDs (the helper remembers one OrderID per root)",
         "exec_type / ord_status are members of FExecType / FOrdStatus (the declared argument types)",
         "the order is a FIXNewOrderSingle built by its constructor with non-empty ticker, str account, a FOrdSide side and finite "
         "numbers; set_instrument / set_price_qty / set_account are the base-class methods",
@@ -72,13 +74,10 @@ NUMTAGS = {"14", "151", "32", "44", "38", "6"}
 MANDATORY = {"11", "37", "17", "150", "39", "54", "14", "151", "55", "44", "38", "6", "1"}
 FINISHED = {"2", "4", "8", "C"}
 FIX_FLOAT = re.compile(r"^-?(\d+\.?\d*|\.\d+)$")
-BAD_FLOAT_TEXT = re.compile(r"^-?(\d+(\.\d+)?e[+-]?\d+|inf|nan)$")
 
-K_CREATED = "C20-status-created"
-K_FOREIGN = "C20-foreign-clordid"
-K_OPENLOOP = "C20-orderid-open-loop"
-K_FLOAT = "C20-float-notation"
-K_REPLY = "C20-reply-after-logout"
+K_FOREIGN = "C20-foreign-clordid"      # pinned by tests/test_protocol_order_single.py::test_exec_report_clord_mismatch
+# repaired (fixes/R12a-R12e, `fixed` records in notes/C20.findings.jsonl): C20-status-created, C20-orderid-open-loop,
+# C20-float-notation, C20-reply-after-logout - any such breach is now an unlisted failure
 
 _LIB = {}
 
@@ -259,8 +258,14 @@ class Hist:
             return float(z[1])
         return fl(z)
 
+    def oids(self):
+        return [[str(k), v] for k, v in getattr(self.t, "_order_ids", {}).items()]
+
     def state(self):
-        return [self.t._order_id, self.t._exec_id, [str(k) for k in self.t.registered_orders.keys()]]
+        return [self.t._order_id, self.t._exec_id, [str(k) for k in self.t.registered_orders.keys()], self.oids()]
+
+    def oids_codes(self):
+        return [[codes(k), v] for k, v in self.oids()]
 
     def case(self, extra):
         """lazy: (history, prefix length, position); materialised by mkcase only when reported"""
@@ -325,14 +330,14 @@ class Hist:
         self.t.schema = None          # observe the fabricated message itself; the oracle validates it below
         try:
             m = self.t.fix_exec_report_msg(o, clord, L["FExecType"](ex), L["FOrdStatus"](st), **kw)
-            impl = [1, proj_msg(m), self.t._order_id, self.t._exec_id]
+            impl = [1, proj_msg(m), self.t._order_id, self.t._exec_id, self.oids_codes()]
         except AssertionError:
-            m, impl = None, [0, [], self.t._order_id, self.t._exec_id]
+            m, impl = None, [0, [], self.t._order_id, self.t._exec_id, self.oids_codes()]
         except Exception as e:  # noqa: BLE001
             m, impl = None, ["exc", type(e).__name__]
         finally:
             self.t.schema = L["SCHEMA"]
-        allocated = impl[-1] != before[1] if impl[0] != "exc" else False
+        allocated = impl[3] != before[1] if impl[0] != "exc" else False
         canon = (tuple(map(repr, snap)), repr(a), before[0], before[1])
         self.ctx.case(canon, nontrivial=bool(allocated),
                       sample={"order": snap, "args": a, "impl": impl} if (m is not None and len(self.ctx.samples) < 3) else None)
@@ -407,7 +412,7 @@ class Hist:
             L["SCHEMA"].validate(m)
         except Exception as e:  # noqa: BLE001
             self.breach("fabricated OrderCancelReject fails FIXSchema.validate: %s: %s" % (type(e).__name__, e),
-                        K_CREATED if status == "Z" else None, {"rej": status})
+                        None, {"rej": status})
         want = {"F": "1", "G": "2"}.get(mt)
         tags = dict(m.tags)
         if tags.get("434") != want or tags.get("11") != req.get(11) or tags.get("41") != req.get(41) or \
@@ -433,15 +438,12 @@ class Hist:
         at = {"fab": a, "order": snap}
         # (a) FIX 4.4 dictionary: the real validator, and the FIX float layout of the numeric tags
         bad_text = [t for t in sorted(NUMTAGS & set(tags)) if not FIX_FLOAT.match(tags[t])]
-        float_cls = K_FLOAT if bad_text and all(BAD_FLOAT_TEXT.match(tags[t]) for t in bad_text) else None
         try:
             L["SCHEMA"].validate(m)
         except Exception as e:  # noqa: BLE001
-            cls = K_CREATED if (st == "Z" and "OrdStatus" in str(e)) else float_cls if bad_text else None
-            self.breach("fabricated ExecutionReport fails FIXSchema(FIX44.xml).validate: %s: %s" % (type(e).__name__, e), cls, at)
+            self.breach("fabricated ExecutionReport fails FIXSchema(FIX44.xml).validate: %s: %s" % (type(e).__name__, e), None, at)
         if bad_text:
-            self.breach("numeric tag(s) %s outside the FIX float layout: %r" % (bad_text, [tags[t] for t in bad_text]),
-                        float_cls, at)
+            self.breach("numeric tag(s) %s outside the FIX float layout: %r" % (bad_text, [tags[t] for t in bad_text]), None, at)
         # (f) mandatory tags, LastQty iff TRADE, OrigClOrdID iff given
         missing = MANDATORY - set(tags)
         if missing:
@@ -481,9 +483,9 @@ class Hist:
             if oid in self.oid_owner and self.oid_owner[oid] != k:
                 self.breach("OrderID %r was already given to another order" % oid, None, at)
         self.oid_owner.setdefault(oid, k)
-        if k in self.first_oid and self.first_oid[k] != oid and had_oid is None:
+        if k in self.first_oid and self.first_oid[k] != oid and (had_oid is None or str(had_oid) == self.first_oid[k]):
             self.breach("OrderID %r differs from the OrderID %r fabricated earlier for the same order" % (oid, self.first_oid[k]),
-                        K_OPENLOOP if self.fab_count.get(k, 0) >= 1 else None, at)
+                        None, at)
         self.first_oid.setdefault(k, oid)
         self.fab_count[k] = self.fab_count.get(k, 0) + 1
         # (e) the order object processes it without error
@@ -502,7 +504,9 @@ class Hist:
 # generators
 # --------------------------------------------------------------------------------------------
 
-ROOTS = ["ord", "X1", "a--b", "o--7", "Z"]
+# root ClOrdIDs, distinct per order k (two orders sharing a ClOrdID chain would be a user error); "o{k}--7" looks like a
+# chained id whose root is "o{k}"
+ROOTS = ["ord%d", "X1%d", "a--b%d", "o%d--7", "Z%d"]
 TICKERS = ["TICK", "VOD.L", "ES"]
 ACCOUNTS = ["000000", "ACC1"]
 
@@ -511,7 +515,7 @@ def gen_new(rng, k):
     price = rng.randrange(1, 60) * QUARTER
     qty = rng.choice([1, 2, 4, 8, 10, 100]) * 4 * QUARTER // rng.choice([1, 1, 1, 2, 4])
     mode = 0 if rng.random() < 0.88 else rng.choice([1, 2])
-    return ["new", k, rng.choice(ROOTS) + str(k), rng.choice(TICKERS), rng.choice(["1", "2", "5"]), price, qty,
+    return ["new", k, rng.choice(ROOTS) % k, rng.choice(TICKERS), rng.choice(["1", "2", "5"]), price, qty,
             rng.choice(ACCOUNTS), mode]
 
 
@@ -1047,8 +1051,7 @@ def run_sessions(ctx, scripts, timeout=150):
         for i, (x, y) in enumerate(zip(a, b)):
             diff = [k for k in KEYS if x.get(k) != y.get(k)]
             if diff:
-                # class predicate: an acceptor-originated step after the acceptor has processed the initiator's Logout
-                cls = K_REPLY if (sc[i].startswith("A_") and "I_logout" in sc[:i]) else None
+                cls = None
                 ctx.fail(dict(case, step=i), "step %d (%s): initiator sees different %s against the helper's acceptor than against a "
                          "real acceptor endpoint: helper=%r real=%r" % (i, sc[i], diff, {k: x.get(k) for k in diff},
                                                                        {k: y.get(k) for k in diff}), cls)
